@@ -16,6 +16,7 @@ import (
 	"src.elv.sh/pkg/prog"
 	"src.elv.sh/pkg/rpc"
 	"src.elv.sh/pkg/store"
+	"src.elv.sh/pkg/verifhook"
 )
 
 var logger = logutil.GetLogger("[daemon] ")
@@ -68,6 +69,7 @@ func Serve(sockpath, dbpath string, opts ServeOpts) int {
 	logger.Println("pid is", syscall.Getpid())
 	logger.Println("going to listen", sockpath)
 	listener, err := net.Listen("unix", sockpath)
+	verifhook.Event("serve.afterListen", "err", err, "sock", sockpath, "db", dbpath)
 	if err != nil {
 		logger.Printf("failed to listen on %s: %v", sockpath, err)
 		logger.Println("aborting")
@@ -75,6 +77,7 @@ func Serve(sockpath, dbpath string, opts ServeOpts) int {
 	}
 
 	st, err := store.NewStore(dbpath)
+	verifhook.Event("serve.afterOpenDB", "err", err, "db", dbpath)
 	if err != nil {
 		logger.Printf("failed to create storage: %v", err)
 		logger.Printf("serving anyway")
@@ -126,6 +129,7 @@ func Serve(sockpath, dbpath string, opts ServeOpts) int {
 	if opts.Ready != nil {
 		close(opts.Ready)
 	}
+	verifhook.Event("serve.ready", "sock", sockpath)
 
 loop:
 	for {
@@ -143,12 +147,14 @@ loop:
 			logger.Println("continuing to serve until all existing clients exit")
 		case conn := <-connCh:
 			conns[conn] = struct{}{}
+			verifhook.Event("serve.connAccepted", "nconns", len(conns))
 			go func() {
 				server.ServeConn(conn)
 				connDoneCh <- conn
 			}()
 		case conn := <-connDoneCh:
 			delete(conns, conn)
+			verifhook.Event("serve.connDone", "nconns", len(conns), "queued", len(connCh))
 			if len(conns) == 0 {
 				logger.Println("all clients disconnected, exiting")
 				break loop
@@ -156,6 +162,7 @@ loop:
 		}
 	}
 
+	verifhook.Event("serve.beforeRemoveSocket", "sock", sockpath, "queued", len(connCh))
 	err = os.Remove(sockpath)
 	if err != nil {
 		logger.Printf("failed to remove socket %s: %v", sockpath, err)
@@ -172,5 +179,6 @@ loop:
 	}
 	// Ensure that the listener goroutine has exited before returning
 	<-listenErrCh
+	verifhook.Event("serve.exit", "sock", sockpath)
 	return 0
 }
